@@ -112,6 +112,10 @@ class TransformedHistogramMixin(abc.ABC):
         transformed: bool = False,
         **kwargs,
     ):
+        if kwargs.get("columns", False):
+            # One row per coordinate => one row per point (before anything is transformed)
+            values = np.asarray(values).T
+            kwargs = {**kwargs, "columns": False}
         if not transformed:
             values = self.transform(values)
         super().fill_n(values=values, weights=weights, dropna=dropna, **kwargs)  # type: ignore
